@@ -48,7 +48,7 @@ def parse_races(paths):
 
 
 def run(c):
-    drv = c.build("pool", race=True)
+    drv = c.build("pool", race=not os.environ.get("C14_NORACE"))   # C14_NORACE: development only (mutation runs)
     if c.thorough:
         cfgs = ["PacketPoolMC.thorough.cfg", "PacketPoolMC.thorough2.cfg", "PacketPoolMC.quick.cfg",
                 "PacketPoolMC.quick2.cfg"]
